@@ -29,14 +29,25 @@ type jLineChg struct {
 	Rate   []tr.Amt `json:"rate"`
 	Q      []tr.Amt `json:"q"`
 }
+type jSub struct {
+	Qty       tr.Amt     `json:"qty"`
+	Price     tr.Amt     `json:"price"`
+	ICD       int        `json:"icd"`
+	FX        []tr.Amt   `json:"fx"`
+	Alt       []tr.Amt   `json:"alt"`
+	Discounts []jLineAdj `json:"discounts"`
+	Charges   []jLineChg `json:"charges"`
+}
 type jLine struct {
 	Qty       tr.Amt     `json:"qty"`
 	Price     tr.Amt     `json:"price"`
 	ICD       int        `json:"icd"`
 	FX        []tr.Amt   `json:"fx"`
+	Alt       []tr.Amt   `json:"alt"`
 	Discounts []jLineAdj `json:"discounts"`
 	Charges   []jLineChg `json:"charges"`
 	Taxes     []jCombo   `json:"taxes"`
+	Subs      []jSub     `json:"subs"`
 }
 type jDocAdj struct {
 	Pct    []tr.Amt `json:"pct"`
@@ -59,12 +70,18 @@ type jDoc struct {
 	Advances  []jPay    `json:"advances"`
 	Dues      []jPay    `json:"dues"`
 }
+type jResSub struct {
+	Price tr.Amt `json:"price"`
+	Sum   tr.Amt `json:"sum"`
+	Total tr.Amt `json:"total"`
+}
 type jResLine struct {
-	Price tr.Amt   `json:"price"`
-	Sum   tr.Amt   `json:"sum"`
-	Total tr.Amt   `json:"total"`
-	DAmts []tr.Amt `json:"damts"`
-	CAmts []tr.Amt `json:"camts"`
+	Price tr.Amt    `json:"price"`
+	Sum   tr.Amt    `json:"sum"`
+	Total tr.Amt    `json:"total"`
+	DAmts []tr.Amt  `json:"damts"`
+	CAmts []tr.Amt  `json:"camts"`
+	Subs  []jResSub `json:"subs"`
 }
 type jRes struct {
 	Lines       []jResLine `json:"lines"`
@@ -149,15 +166,9 @@ func docJSON(d jDoc, kind, reg string, explicitRule bool) ([]byte, error) {
 	if len(tx) > 0 {
 		doc["tax"] = tx
 	}
-	lines := []any{}
-	for _, l := range d.Lines {
-		item := map[string]any{"name": "item", "price": amtString(l.Price)}
-		if len(l.FX) > 0 {
-			item["currency"] = "XFX" // replaced below
-		}
-		ln := map[string]any{"quantity": amtString(l.Qty), "item": item}
+	discJSON := func(xs []jLineAdj) []any {
 		ds := []any{}
-		for _, x := range l.Discounts {
+		for _, x := range xs {
 			m := map[string]any{"reason": "d", "amount": amtString(x.Amount)}
 			if len(x.Pct) > 0 {
 				m["percent"] = toPct(x.Pct[0]).String()
@@ -167,11 +178,11 @@ func docJSON(d jDoc, kind, reg string, explicitRule bool) ([]byte, error) {
 			}
 			ds = append(ds, m)
 		}
-		if len(ds) > 0 {
-			ln["discounts"] = ds
-		}
+		return ds
+	}
+	chgJSON := func(xs []jLineChg) []any {
 		cs := []any{}
-		for _, x := range l.Charges {
+		for _, x := range xs {
 			m := map[string]any{"reason": "c", "amount": amtString(x.Amount)}
 			if len(x.Pct) > 0 {
 				m["percent"] = toPct(x.Pct[0]).String()
@@ -187,7 +198,55 @@ func docJSON(d jDoc, kind, reg string, explicitRule bool) ([]byte, error) {
 			}
 			cs = append(cs, m)
 		}
-		if len(cs) > 0 {
+		return cs
+	}
+	// foreign-currency items: a made-up source currency per item precision, one exchange rate per source
+	// currency; an alternative price is given in the document's currency and wins over the rate
+	fxCur := map[int]string{0: "JPY", 2: "USD", 3: "BHD"}
+	rates := []any{}
+	seenRate := map[string]bool{}
+	itemJSON := func(price tr.Amt, icd int, fx, alt []tr.Amt) map[string]any {
+		item := map[string]any{"name": "item", "price": amtString(price)}
+		if len(fx) == 0 && len(alt) == 0 {
+			return item
+		}
+		from := fxCur[icd]
+		if from == cur {
+			from = map[int]string{0: "KRW", 2: "GBP", 3: "TND"}[icd]
+		}
+		item["currency"] = from
+		if len(alt) > 0 {
+			item["alt_prices"] = []any{map[string]any{"currency": cur, "value": amtString(alt[0])}}
+		}
+		if len(fx) > 0 && !seenRate[from] {
+			seenRate[from] = true
+			rates = append(rates, map[string]any{"from": from, "to": cur, "amount": amtString(fx[0])})
+		}
+		return item
+	}
+	lines := []any{}
+	for _, l := range d.Lines {
+		ln := map[string]any{"quantity": amtString(l.Qty), "item": itemJSON(l.Price, l.ICD, l.FX, l.Alt)}
+		if len(l.Subs) > 0 {
+			// the price comes from the breakdown
+			ln["item"] = map[string]any{"name": "item"}
+			bd := []any{}
+			for _, sl := range l.Subs {
+				sm := map[string]any{"quantity": amtString(sl.Qty), "item": itemJSON(sl.Price, sl.ICD, sl.FX, sl.Alt)}
+				if ds := discJSON(sl.Discounts); len(ds) > 0 {
+					sm["discounts"] = ds
+				}
+				if cs := chgJSON(sl.Charges); len(cs) > 0 {
+					sm["charges"] = cs
+				}
+				bd = append(bd, sm)
+			}
+			ln["breakdown"] = bd
+		}
+		if ds := discJSON(l.Discounts); len(ds) > 0 {
+			ln["discounts"] = ds
+		}
+		if cs := chgJSON(l.Charges); len(cs) > 0 {
 			ln["charges"] = cs
 		}
 		if len(l.Taxes) > 0 {
@@ -252,24 +311,6 @@ func docJSON(d jDoc, kind, reg string, explicitRule bool) ([]byte, error) {
 	if len(d.Rounding) > 0 {
 		doc["totals"] = map[string]any{"rounding": amtString(d.Rounding[0])}
 	}
-	// foreign-currency items: a made-up source currency per item precision
-	fxCur := map[int]string{0: "JPY", 2: "USD", 3: "BHD"}
-	rates := []any{}
-	seen := map[string]bool{}
-	for i, l := range d.Lines {
-		if len(l.FX) == 0 {
-			continue
-		}
-		from := fxCur[l.ICD]
-		if from == cur {
-			from = map[int]string{0: "KRW", 2: "GBP", 3: "TND"}[l.ICD]
-		}
-		lines[i].(map[string]any)["item"].(map[string]any)["currency"] = from
-		if !seen[from] {
-			seen[from] = true
-			rates = append(rates, map[string]any{"from": from, "to": cur, "amount": amtString(l.FX[0])})
-		}
-	}
 	if len(rates) > 0 {
 		doc["exchange_rates"] = rates
 	}
@@ -294,7 +335,20 @@ type billDoc struct {
 func projectBill(b billDoc) jRes {
 	r := emptyRes()
 	for _, l := range b.lines {
-		rl := jResLine{DAmts: []tr.Amt{}, CAmts: []tr.Amt{}}
+		rl := jResLine{DAmts: []tr.Amt{}, CAmts: []tr.Amt{}, Subs: []jResSub{}}
+		for _, sl := range l.Breakdown {
+			rs := jResSub{}
+			if sl.Item != nil && sl.Item.Price != nil {
+				rs.Price = amtOf(*sl.Item.Price)
+			}
+			if sl.Sum != nil {
+				rs.Sum = amtOf(*sl.Sum)
+			}
+			if sl.Total != nil {
+				rs.Total = amtOf(*sl.Total)
+			}
+			rl.Subs = append(rl.Subs, rs)
+		}
 		if l.Item != nil && l.Item.Price != nil {
 			rl.Price = amtOf(*l.Item.Price)
 		}
@@ -378,6 +432,31 @@ func resolveCombos(d *jDoc, reg string, inv *bill.Invoice) {
 	}
 }
 
+func normAdj(ds []jLineAdj, cs []jLineChg) {
+	for j := range ds {
+		if ds[j].Pct == nil {
+			ds[j].Pct = []tr.Amt{}
+		}
+		if ds[j].Base == nil {
+			ds[j].Base = []tr.Amt{}
+		}
+	}
+	for j := range cs {
+		if cs[j].Pct == nil {
+			cs[j].Pct = []tr.Amt{}
+		}
+		if cs[j].Base == nil {
+			cs[j].Base = []tr.Amt{}
+		}
+		if cs[j].Rate == nil {
+			cs[j].Rate = []tr.Amt{}
+		}
+		if cs[j].Q == nil {
+			cs[j].Q = []tr.Amt{}
+		}
+	}
+}
+
 func normDoc(d *jDoc) {
 	if d.Rounding == nil {
 		d.Rounding = []tr.Amt{}
@@ -386,6 +465,28 @@ func normDoc(d *jDoc) {
 		l := &d.Lines[i]
 		if l.FX == nil {
 			l.FX = []tr.Amt{}
+		}
+		if l.Alt == nil {
+			l.Alt = []tr.Amt{}
+		}
+		if l.Subs == nil {
+			l.Subs = []jSub{}
+		}
+		for k := range l.Subs {
+			sl := &l.Subs[k]
+			if sl.FX == nil {
+				sl.FX = []tr.Amt{}
+			}
+			if sl.Alt == nil {
+				sl.Alt = []tr.Amt{}
+			}
+			if sl.Discounts == nil {
+				sl.Discounts = []jLineAdj{}
+			}
+			if sl.Charges == nil {
+				sl.Charges = []jLineChg{}
+			}
+			normAdj(sl.Discounts, sl.Charges)
 		}
 		if l.Taxes == nil {
 			l.Taxes = []jCombo{}
@@ -396,28 +497,7 @@ func normDoc(d *jDoc) {
 		if l.Charges == nil {
 			l.Charges = []jLineChg{}
 		}
-		for j := range l.Discounts {
-			if l.Discounts[j].Pct == nil {
-				l.Discounts[j].Pct = []tr.Amt{}
-			}
-			if l.Discounts[j].Base == nil {
-				l.Discounts[j].Base = []tr.Amt{}
-			}
-		}
-		for j := range l.Charges {
-			if l.Charges[j].Pct == nil {
-				l.Charges[j].Pct = []tr.Amt{}
-			}
-			if l.Charges[j].Base == nil {
-				l.Charges[j].Base = []tr.Amt{}
-			}
-			if l.Charges[j].Rate == nil {
-				l.Charges[j].Rate = []tr.Amt{}
-			}
-			if l.Charges[j].Q == nil {
-				l.Charges[j].Q = []tr.Amt{}
-			}
-		}
+		normAdj(l.Discounts, l.Charges)
 	}
 	if d.Discounts == nil {
 		d.Discounts = []jDocAdj{}
@@ -738,6 +818,53 @@ func randDoc(r *rand.Rand) jDoc {
 			l.ICD = []int{0, 2, 3}[r.Intn(3)]
 			l.FX = []tr.Amt{fxRates[l.ICD]}
 			l.Price = scaled(500000, l.ICD, 2)
+		}
+		if len(l.FX) > 0 && r.Intn(3) == 0 {
+			// an alternative price in the document's currency (it wins over the exchange rate)
+			l.Alt = []tr.Amt{scaled(500000, d.CD, 2)}
+			if r.Intn(2) == 0 {
+				l.FX = nil
+			}
+		}
+		if r.Intn(8) == 0 {
+			// the price comes from a breakdown of 1-3 sub-lines
+			for k := 1 + r.Intn(3); k > 0; k-- {
+				// magnitudes stay small: the line multiplies the breakdown's total by its own quantity
+				sl := jSub{Qty: scaled(100, 1, 0), Price: scaled(20000, 2, 2), ICD: d.CD}
+				if r.Intn(3) == 0 {
+					// prices with fewer decimals than the currency ("10.5", "2")
+					sl.Price = tr.Amt{V: tr.BigOfInt(int64(1 + r.Intn(300))), E: r.Intn(2)}
+				}
+				if r.Intn(3) == 0 {
+					sl.Qty = tr.Amt{V: tr.BigOfInt(int64(1 + r.Intn(9))), E: 0}
+				}
+				if r.Intn(6) == 0 {
+					sl.ICD = []int{0, 2, 3}[r.Intn(3)]
+					sl.FX = []tr.Amt{fxRates[sl.ICD]}
+					sl.Price = scaled(300, 0, 1)
+					sl.Qty = tr.Amt{V: tr.BigOfInt(int64(1 + r.Intn(9))), E: 0}
+				}
+				if r.Intn(3) == 0 {
+					x := jLineAdj{Amount: cdAmt(500)}
+					if r.Intn(2) == 0 {
+						x.Pct = []tr.Amt{{V: tr.BigOfInt(int64(r.Intn(500))), E: 3}}
+					}
+					sl.Discounts = append(sl.Discounts, x)
+				}
+				if r.Intn(4) == 0 {
+					x := jLineChg{Amount: cdAmt(500)}
+					if r.Intn(2) == 0 {
+						x.Rate = []tr.Amt{{V: tr.BigOfInt(int64(r.Intn(1000))), E: 2}}
+					}
+					sl.Charges = append(sl.Charges, x)
+				}
+				l.Subs = append(l.Subs, sl)
+			}
+			l.FX, l.Alt, l.ICD = nil, nil, d.CD
+			l.Qty = tr.Amt{V: tr.BigOfInt(int64(1 + r.Intn(20))), E: 0}
+			if r.Intn(6) == 0 {
+				l.Qty.V = tr.BigOfInt(-int64(1 + r.Intn(20)))
+			}
 		}
 		for k := r.Intn(3); k > 0; k-- {
 			x := jLineAdj{Amount: cdAmt(5000)}
